@@ -391,6 +391,37 @@ def r05f(ctx, rep, cr):
     rep.floor('R05f', 'atomic read-modify-write sites on counters in graph_engine', n_rmw, 4)
 
 
+def r05g(ctx, rep, cr):
+    rep.rule('R05g', 'adjacency lists are searched, not bisected: no graph_engine function applies an order-assuming operation '
+                     '(binary_search*, partition_point, dedup*) to a list taken from a stored tensor\'s `_edges` field unless it sorts that '
+                     'list first. The lists are in arrival order: an edge id is allocated before the per-list lock is taken, so concurrent '
+                     'creators append out of id order, a bisecting remove then misses the entry and leaves a dangling id behind')
+    n = 0
+    nf = 0
+    for name, f in sorted(cr.fns.items()):
+        nf += 1
+        oc = lib.order_assuming_calls(f)
+        if not oc:
+            continue
+        defs = A.Defs(f)
+        for k, (c, root, sorted_here) in enumerate(oc):
+            sl = A.backward_slice(f, [c.args[0]], defs)
+            if not (any('_edges' in x for x in sl.consts) or re.search(r'edge_list|edge_from_list|edge_to_list', name)):
+                continue
+            n += 1
+            rep.analysed(f)
+            if sorted_here:
+                rep.holds('R05g', f, '%s#%d' % (c.resolved.split('::')[-1], k), 'list sorted in the function first')
+            else:
+                rep.violation('R05g', f, 'bisect-on-arrival-order', f.loc(c.line),
+                              '%s is applied to an adjacency list that is only in arrival order: when two creators appended out of id order '
+                              'the search misses an id that is present, the unlink is skipped and the list keeps an edge that no longer exists' % c.resolved.split('::')[-1])
+    rep.notes.append('R05g: %d functions scanned, %d order-assuming call(s) on adjacency lists' % (nf, n))
+    rep.floor('R05g', 'graph_engine functions scanned', nf, 300)
+    if n == 0:
+        rep.holds('R05g', 'graph_engine', 'order-assuming calls on adjacency lists', 'none')
+
+
 def run(ctx, rep):
     cr = ctx.crate('graph_engine')
     cg = ctx.callgraph(['graph_engine'])
@@ -400,3 +431,4 @@ def run(ctx, rep):
     r05d(ctx, rep, cr)
     r05e(ctx, rep, cr)
     r05f(ctx, rep, cr)
+    r05g(ctx, rep, cr)
